@@ -33,6 +33,10 @@ def main():
         elif model == 'qf':
             from . import m_qf
             r = m_qf.run(fns, unit)
+        elif model == 'serde':
+            from . import m_serde
+            unit['_mir_path'] = mir_path
+            r = m_serde.run(fns, unit)
         elif model == 'kernel':
             from . import m_kernels
             r = m_kernels.run(fns, unit)
